@@ -112,3 +112,14 @@ Proof.
     + cbn [ulookup]. rewrite ukey_eqb_refl. cbn. split; [reflexivity|]. split; [apply db_equiv_refl | discriminate].
   - cbn. split; [reflexivity|]. split; [apply db_equiv_refl | discriminate].
 Qed.
+
+(* two deliveries racing: the one that finds the undo row (or a business row) locked fails at that
+   call; whatever is delivered afterwards behaves as if the loser had never run *)
+Theorem race_loser cfg k d x fs :
+  let r := rollback_branch cfg (Some k) d x in
+  r_fired r = true ->
+  r_db r = d /\ r_out r <> status_ok /\ r_tx_open r = false /\
+  deliver cfg fs (r_db r) x = deliver cfg fs d x.
+Proof.
+  cbn zeta. intro F. destruct (no_partial cfg k d x F) as [E [O [T _]]]. rewrite E. auto.
+Qed.
